@@ -696,7 +696,7 @@ class Interp(Exec):
                     return self.load(st, VRef(obj.root, obj.path + (("f", name),)))
                 return VFunc("bound", recv=obj, name=name)
             return VFunc("bound", recv=obj, name=name)
-        if isinstance(obj, (VStr, VTuple, VFam, VInt, VReal, VDyn)):
+        if isinstance(obj, (VStr, VTuple, VFam, VInt, VReal, VDyn, VLin)):
             return VFunc("bound", recv=obj, name=name)
         if isinstance(obj, VModule):
             return self.imported(obj.name + "." + name)
@@ -952,7 +952,7 @@ BUILTIN_CLASSES = {
     "ZeroDivisionError", "AldyException", "NoSolutionsError", "defaultdict", "Counter", "NoneType", "object",
 }
 
-SPEC_FUNCS = {"newvar", "newvar_at", "emits", "emitted", "lp_binary", "lp_integer", "lp_lb", "lp_ub", "lp_name",
+SPEC_FUNCS = {"all_yields", "lp_solution", "newvar", "newvar_at", "emits", "emitted", "lp_binary", "lp_integer", "lp_lb", "lp_ub", "lp_name",
               "lp_inf", "lp_families", "lp_isvar", "family", "lp_objective", "lp_setobjective", "forall", "exists", "implies", "iff", "old", "fresh", "bigsum", "result", "ite", "is_none",
               "abstract", "seq_filter", "domain", "count", "typed", "sameobj", "opaque", "the"}
 
